@@ -30,6 +30,41 @@ def design_handle(out, configs, timeout=900):
         out.parts.append({"design": f"MC_Handle MaxBuf={maxbuf} MaxLen={maxlen} MaxFaults={faults}", "states": distinct, "transitions": gen})
 
 
+def design_fault(out, tier):
+    """MC_Fault: CfbFault (the write paths at the granularity of single backend writes, memory / file split) at
+    tiny geometry; every reachable state x every operation x every write as the failing one x retry, and the
+    same with another operation in between.  As for every design-level run, a violated invariant is a failure
+    of the model (exit 2), not a verdict about the code."""
+    runs = [(3, False, False, "InvPhys InvThrough InvRetryShow", "{0, 1, 3, 7, 8, 9, 13}"),
+            (2, False, True, "InvRetry2Show", "{0, 3, 7, 9, 13}")]
+    if tier == "thorough":
+        runs = [(4, True, False, "InvPhys InvThrough InvRetryShow", "{0, 1, 3, 7, 8, 9, 13}"),
+                (4, False, False, "InvPhys InvThrough InvRetryShow", "{0, 1, 3, 7, 8, 9, 13}"),
+                (2, True, True, "InvRetry2Show", "{0, 3, 7, 9, 13}"), (2, False, True, "InvRetry2Show", "{0, 3, 7, 9, 13}")]
+    b = lambda x: "TRUE" if x else "FALSE"
+    for (maxops, v4, inter, invs, sizes) in runs:
+        tag = f"mcf_{maxops}_{int(v4)}_{int(inter)}"
+        path = os.path.join(core.SPEC, f"_{tag}.cfg")
+        open(path, "w").write(f"""SPECIFICATION Spec
+CONSTANTS Names = {{"a", "b", "c"}} Sizes = {sizes} MaxOps = {maxops} V4 = {b(v4)} Old = FALSE Interleave = {b(inter)}
+INVARIANT {invs}
+CHECK_DEADLOCK FALSE
+""")
+        try:
+            rc, lines = core.run_tlc("MC_Fault.tla", os.path.basename(path), {}, os.path.join(core.WORK, f"md_{tag}"), workers=6,
+                                     timeout=7000, xmx="8g", deque=False)
+        finally:
+            os.remove(path)
+        if not core.tlc_ok(lines):
+            raise core.ToolError("MC_Fault (design level) failed:\n" + "\n".join(ln[:300] for ln in lines[-30:]))
+        gen, distinct = core.tlc_stats(lines)
+        out.add_design(gen, distinct)
+        out.parts.append({"design": f"MC_Fault tiny geometry MaxOps={maxops} V4={v4} interleaved={inter}: in every state, every enabled operation "
+                                    f"x every write of it failing x retry" + (" x one operation on another name in between" if inter else "") +
+                                    ": the file opens (CfbOpen), holds the abstract content, chains fit, no sector has two owners, memory = file",
+                          "invariants": invs, "states": distinct, "transitions": gen})
+
+
 def count_calls(hist, cls):
     """Fault-free run of the workload: total number of backend calls of the class and the
     cumulative count after every API call (the boundaries between API calls)."""
@@ -142,6 +177,7 @@ def check_c13(tier, seed):
     out = Outcome("C13", tier, seed)
     rng = random.Random(seed)
     design_handle(out, [(3, 3, 1)] + ([(3, 4, 1), (2, 3, 2)] if tier == "thorough" else []))
+    design_fault(out, tier)
     wl = [hgens.rw_workload(3, 1024, 0), hgens.rw_workload(4, None, 1), hgens.rw_workload(3, None, 2), hgens.rw_workload(3, None, 3)]
     if tier == "thorough":
         wl += [hgens.rw_workload(3, None, 1), hgens.rw_workload(4, 1024, 0), hgens.rw_workload(3, 2560, 1), hgens.rw_workload(4, 1024, 2), hgens.rw_workload(4, 1024, 3)]
